@@ -24,10 +24,8 @@ def showS (s : Spec.Salsa20.S) : String :=
     s.x7.toNat, s.x8.toNat, s.x9.toNat, s.x10.toNat, s.x11.toNat, s.x12.toNat, s.x13.toNat,
     s.x14.toNat, s.x15.toNat]
 
-/-- same function, evaluated once into a table (keeps the closure chains of `Spec.Rc4.swap` short). -/
-def tabulate (S : Spec.Rc4.Perm) : Spec.Rc4.Perm :=
-  let t : Array Nat := Array.ofFn (n := 256) fun x => S x.val
-  fun x => if x < 256 then t.getD x 0 else S x
+/-- the values of `S` on 0..255 as a table. -/
+def table (S : Spec.Rc4.Perm) : Array Nat := Array.ofFn (n := 256) fun x => S x.val
 
 def main : IO Unit := do
   -- counter: generated update vs 64-bit little-endian increment, at and around the carry
@@ -87,7 +85,8 @@ def main : IO Unit := do
       let (sK, _) := forRange (fun (x : Array Byte × Byte) i => Generated.arc4_ksa_body key.toArray x.1 i x.2)
         Generated.arc4_ksa_lo Generated.arc4_ksa_hi (s0, Generated.arc4_ksa_j0)
       let st0 := Spec.Rc4.init key hk
-      let st0 := { st0 with S := tabulate st0.S }
+      let t0 := table st0.S
+      let st0 : Spec.Rc4.State := { st0 with S := fun x => t0.getD x 0 }
       let mut bad := false
       for x in List.range 256 do
         if (sK.getD x 0).toNat ≠ st0.S x ∧ !bad then
@@ -103,10 +102,11 @@ def main : IO Unit := do
         if !stop then
           let ((s', i', j'), o) := Generated.arc4_apply_body s i j 0
           let (st', k) := Spec.Rc4.next st
+          let t' := table st'.S
           if o.toNat ≠ k ∨ i'.toNat ≠ st'.i ∨ j'.toNat ≠ st'.j then
             stop := true
             IO.println s!"FAIL arc4_next key={key.map (·.toNat)} keystream-byte#{n} generated=(out {o.toNat}, i {i'.toNat}, j {j'.toNat}) rc4=(out {k}, i {st'.i}, j {st'.j})"
-          s := s'; i := i'; j := j'; st := { st' with S := tabulate st'.S }
+          s := s'; i := i'; j := j'; st := { st' with S := fun x => t'.getD x 0 }
   if !Generated.arc4_encrypt_is_xor_map then
     IO.println "FAIL arc4_encrypt: body is no longer `data.iter().map(|&byte| byte ^ self.next_keystream_byte()).collect()` (no model-level input)"
   if !Generated.arc4_decrypt_is_encrypt then
